@@ -375,8 +375,11 @@ def run(ctx):
     # the comparison goes through hash_without_ep: it separates exactly the positions only if the position-state writers
     # keep hash and state in lock-step for every history (owned by C10; re-run here, a stale key makes same_position
     # answer false for identical positions)
-    from . import c10, c03
+    from . import c10, c03, c01
     expl = ctx.explanation
+    # "a legal en-passant capture": is_legal hands the question to the pawn generator's en-passant branch, whose agreement
+    # with the rules is C01's (generator batches, king exposure test); re-run here
+    c01.run(ctx)
     c10.run(ctx)
     # "a legal en-passant capture exists" is decided by is_legal from the stored checkers and pins: they must equal their
     # definition for every history (owned by C03; re-run here)
